@@ -9,6 +9,7 @@ CONSTANTS Family,                  \* which family of bodies (see FamilyBodies)
           MaxSpans,                \* bound on spans per body for the batch families
           BatchOwn, BatchName, BatchRemote,  \* batch family: sets of booleans (own trace id? name present? remote endpoint?)
           OrderPos,                \* orders family: the four mandatory keys "first" and/or "last"
+          OrderKeys,               \* orders family: the optional keys whose presence and order vary
           RattrSel,                \* attrs family: which of the 4 resource attribute lists (subset of 1..4)
           GroupKinds, GroupOwn     \* groups family: span kinds (subset of 0..2), own trace id? (set of booleans)
 
@@ -46,7 +47,7 @@ ZOrderSpans(u_) ==
                                 \cup (IF "last" \in OrderPos THEN {p \o G4 : p \in Perms(ks)} ELSE {})} :
                 loc \in (IF "localEndpoint" \in ks THEN {"@L1", NoName} ELSE {"-"}),
                 rem \in (IF "remoteEndpoint" \in ks THEN {"@R1", NoName} ELSE {"-"})} :
-         ks \in SUBSET Optional}
+         ks \in SUBSET (Optional \cap OrderKeys)}
 ZBodiesOrders(u_) == {ZBody(fr, "number", <<s>>) : fr \in Framings, s \in ZOrderSpans(0)}
 
 (* batches: up to MaxSpans spans per body; per span: same or own trace, parent / name / local endpoint / remote   *)
